@@ -730,6 +730,129 @@ void sim_init(struct sim *s, struct universe *u, const struct simcfg *cfg, uint6
 	s->cache.announce_cap = u->np;
 }
 
+#ifdef SIM_TCP_WRAPS
+/* ------------------------------------------------------------------ the real TCP transport over the simulator
+ * tr_tcp_init() with the new_socket hook: tcp_transport.c runs unchanged, and the four system calls it makes on the
+ * connection (recv, send, setsockopt for the two timeouts, close) are redirected at link time (--wrap) to the simulated
+ * cache and the virtual clock.  A blocking recv() without SO_RCVTIMEO waits "for ever": ten virtual years. */
+#include <sys/socket.h>
+#include <fcntl.h>
+
+#define TCP_FOREVER ((time_t)315360000)
+static struct {
+	int fd;
+	struct sim *s;
+	time_t rcvto, sndto;
+} TCPFD[8];
+
+static int tcpfd_find(int fd)
+{
+	for (int i = 0; i < 8; i++)
+		if (TCPFD[i].s && TCPFD[i].fd == fd)
+			return i;
+	return -1;
+}
+
+int sim_tcp_new_socket(void *data)
+{
+	struct sim *s = data;
+	int fd;
+
+	if (s->tr.open_fp(s) != TR_SUCCESS) {
+		errno = ECONNREFUSED;
+		return -1;
+	}
+	fd = open("/dev/null", O_RDWR);
+	for (int i = 0; i < 8 && fd > 0; i++) {
+		if (!TCPFD[i].s) {
+			TCPFD[i].fd = fd;
+			TCPFD[i].s = s;
+			TCPFD[i].rcvto = TCPFD[i].sndto = 0; /* 0 = no timeout set: block */
+			return fd;
+		}
+	}
+	return -1;
+}
+
+ssize_t __real_recv(int fd, void *buf, size_t len, int flags);
+ssize_t __real_send(int fd, const void *buf, size_t len, int flags);
+int __real_setsockopt(int fd, int level, int optname, const void *optval, socklen_t optlen);
+int __real_close(int fd);
+ssize_t __wrap_recv(int fd, void *buf, size_t len, int flags);
+ssize_t __wrap_send(int fd, const void *buf, size_t len, int flags);
+int __wrap_setsockopt(int fd, int level, int optname, const void *optval, socklen_t optlen);
+int __wrap_close(int fd);
+
+static ssize_t tcp_result(int rv)
+{
+	if (rv > 0)
+		return rv;
+	switch (rv) {
+	case TR_WOULDBLOCK:
+		errno = EAGAIN;
+		return -1;
+	case TR_INTR:
+		errno = EINTR;
+		return -1;
+	case TR_CLOSED:
+		return 0;
+	default:
+		errno = ECONNRESET;
+		return -1;
+	}
+}
+
+ssize_t __wrap_recv(int fd, void *buf, size_t len, int flags)
+{
+	int i = tcpfd_find(fd);
+
+	if (i < 0)
+		return __real_recv(fd, buf, len, flags);
+	CNT("tcp/recv_calls_through_the_real_transport");
+	return tcp_result(TCPFD[i].s->tr.recv_fp(TCPFD[i].s, buf, len, (flags & MSG_DONTWAIT) ? 0 : TCPFD[i].rcvto ? TCPFD[i].rcvto : TCP_FOREVER));
+}
+
+ssize_t __wrap_send(int fd, const void *buf, size_t len, int flags)
+{
+	int i = tcpfd_find(fd);
+	ssize_t rv;
+
+	if (i < 0)
+		return __real_send(fd, buf, len, flags);
+	CNT("tcp/send_calls_through_the_real_transport");
+	rv = tcp_result(TCPFD[i].s->tr.send_fp(TCPFD[i].s, buf, len, (flags & MSG_DONTWAIT) ? 0 : TCPFD[i].sndto ? TCPFD[i].sndto : TCP_FOREVER));
+	if (rv == 0) { /* a peer that is gone shows as an error on send, not as 0 */
+		errno = EPIPE;
+		rv = -1;
+	}
+	return rv;
+}
+
+int __wrap_setsockopt(int fd, int level, int optname, const void *optval, socklen_t optlen)
+{
+	int i = tcpfd_find(fd);
+
+	if (i < 0 || level != SOL_SOCKET || (optname != SO_RCVTIMEO && optname != SO_SNDTIMEO) || optlen < sizeof(struct timeval))
+		return i < 0 ? __real_setsockopt(fd, level, optname, optval, optlen) : 0;
+	if (optname == SO_RCVTIMEO)
+		TCPFD[i].rcvto = ((const struct timeval *)optval)->tv_sec;
+	else
+		TCPFD[i].sndto = ((const struct timeval *)optval)->tv_sec;
+	return 0;
+}
+
+int __wrap_close(int fd)
+{
+	int i = tcpfd_find(fd);
+
+	if (i >= 0) {
+		TCPFD[i].s->tr.close_fp(TCPFD[i].s);
+		TCPFD[i].s = NULL;
+	}
+	return __real_close(fd);
+}
+#endif
+
 void sim_attach(struct sim *s, struct rtr_socket *sock, struct pfx_table *pfxt, struct spki_table *spkit)
 {
 	s->sock = sock;
